@@ -305,12 +305,11 @@ class DocumentationAggregator(CMakeListener):
         elif arg_len == 1:  # String
             value = ctx.single_argument()[1].getText()
 
-            # If the value includes the quote marks,
-            # need to remove them to get just the raw string
-            if value[0] == '"':
-                value = value[1:]
-            if value[-1] == '"':
-                value = value[:-1]
+            # If the value includes the quote marks (a quoted argument),
+            # need to remove them to get just the raw string. An unquoted
+            # argument may end in an escaped quote, which is part of the value
+            if len(value) >= 2 and value[0] == '"' and value[-1] == '"':
+                value = value[1:-1]
             self.documented.append(VariableDocumentation(
                 varname, docstring, VarType.STRING, value))
         else:  # Unset
